@@ -585,7 +585,21 @@ func genAdvPeer(rt *rapid.T, nm *hx.NodeMachine, cfg genCfg) hx.NOp {
 		}
 	}
 	op := genPeerOn(rt, nm, cfg, parent)
-	switch rapid.IntRange(0, 4).Draw(rt, "advpeer") {
+	switch rapid.IntRange(0, 6).Draw(rt, "advpeer") {
+	case 5:
+		op.CBIn = rapid.IntRange(1, 3).Draw(rt, "cbin")
+		op.Expect = "coinbase-with-input-or-write"
+	case 6:
+		// the first transaction of the block is a plain transfer that its initiator did not sign
+		plain := cfg
+		plain.ContractPct = 0
+		s := nm.States[parent].Clone()
+		if spec, ok := genTxSpec(rt, nm, s, plain, 0, false); ok {
+			op.Txs = append([]hx.TxSpec{spec}, op.Txs...)
+			op.Old = nil
+			op.TxMut = rapid.SampledFrom([]string{"autogen", "autogen", "nosig", "othersig"}).Draw(rt, "txmut")
+			op.Expect = "unsigned-tx-in-block"
+		}
 	case 0:
 		op.AwardAdd = int64(rapid.SampledFrom([]int{1, -1, 1000000}).Draw(rt, "awardadd"))
 		op.Expect = "bad-award"
